@@ -39,7 +39,18 @@ BAD = [b'\xff', b'\xc3', b'\xe2\x82', b'\xf0\x9f\x98', b'\x80abc',
 
 def hostile(rng, big=False):
     """ returns (bytes, class) """
-    k = rng.randrange(12)
+    k = rng.randrange(14)
+    if k == 12:
+        # first byte 0x1f (half of the gzip magic) - plain text all the same
+        tail = rng.choice([b'', b'\x8a', b'\x00', b'abc\n',
+                           G.gen_log(rng, 4)])
+        return b'\x1f' + tail, 'starts-with-1f'
+    if k == 13:
+        data = bytearray(G.gen_log(rng, rng.choice([150, 300])))
+        for _ in range(rng.randint(1, 4)):
+            data[rng.choice([10, 600, 4000, 4100, 5000, 8000, 8200,
+                             len(data) - 2]) % len(data)] = 0
+        return bytes(data), 'nul-bytes-in-log'
     if k == 0:
         n = rng.choice([1, 7, 64, 300, 2000])
         return bytes(rng.randrange(256) for _ in range(n)), 'random-bytes'
@@ -105,7 +116,7 @@ def make_case(rng, base, idx, big):
         data = b'a' + data          # gzip magic is outside the property
     ncons = rng.choice([0, 1, 2])
     cons = RC.gen_constraints(rng, ncons)
-    defs = RC.gen_defs(rng, ncons)
+    defs = RC.gen_defs(rng, ncons, typed=True)
     if ncons and rng.random() < 0.3:
         # EVERY search carries its own constraint: lines before the first
         # passing one are read (and must decode) although nothing searches
@@ -240,7 +251,7 @@ def judge(chk, recipe, meta, o, cases, wants, metas):
                 m = RC.sd_run(cd, txt)
                 if m:
                     exp.append([i, d['tag'],
-                                [v for _, v in RC.parts_of(m, d['store'])]])
+                                RC.cast_parts(d, RC.parts_of(m, d['store']))])
             mine = [r[:3] for r in got if r[1] == d['tag']]
             if mine != exp:
                 chk.violation(f"results-differ-from-line-by-line-reading "
@@ -273,6 +284,12 @@ def position_probe(chk, items):
              ('undated-both-ends', junk[:900] + old + new + junk[:900]),
              ('long-line-in-window', old + b'2022-01-13 00:00:00 '
               + b'L' * 1100000 + b'\n' + new)]
+    # lines longer than the 256-byte read horizon that start inside the first
+    # horizon (the shape of the repaired defect D1), in-window
+    for ln_ in (300, 723, 1023, 5023):
+        fixed.append((f'long-second-line-{ln_}',
+                      b'2022-01-09 00:00:00 A\n' + b'2022-01-13 00:00:01 B '
+                      + b'b' * ln_ + b'\n2022-01-13 00:00:02 C\n'))
     c1 = {'current': '2022-01-13 12:00:00', 'days': 0, 'hours': 24}
     items = list(items) + [
         ({'constraints': [c1]},
@@ -300,6 +317,16 @@ def position_probe(chk, items):
             continue
         n += 1
         data = meta['data']
+        since_ = G.since_secs(c0)
+        if well_formed_for_seek(data, since_, meta['wide']):
+            want = G.first_in_window(data, since_, meta['wide'])
+            if pos != want:
+                chk.violation(
+                    f"since-position-not-first-in-window class={meta['class']}",
+                    {'class': meta['class'], 'constraint': c0,
+                     'position': pos, 'expected': want, 'length': len(data),
+                     'content_head': data[:300].decode('latin-1')})
+                continue
         if not (pos == 0 or pos == len(data) or data[pos - 1:pos] == b'\n'):
             chk.violation(f"position-not-a-line-start class={meta['class']}",
                           {'class': meta['class'], 'constraint': c0,
